@@ -36,4 +36,4 @@ if '\n### 9.4' in s:
 else:
     s += sec
 open('/verif/DESIGN.md', 'w').write(s)
-print(len(rows), "seeds;", sum(1 for r in rows if "not caught" in r), "not caught")
+print(len(rows), "seeds;", sum(1 for r in rows if "**not caught**" in r), "not caught")
